@@ -84,9 +84,14 @@ CubR(q) == LET ab == Mid(q[1], q[2]) bc == Mid(q[2], q[3]) cd == Mid(q[3], q[4])
 \* the 2^k sub-cubics of q (control points scaled by 8^k beforehand)
 RECURSIVE CubPieces(_, _)
 CubPieces(q, k) == IF k = 0 THEN <<q>> ELSE CubPieces(CubL(q), k - 1) \o CubPieces(CubR(q), k - 1)
-InTriC(a, b, c, s) == LET x == Sgn(Cross(a, b, s)) y == Sgn(Cross(b, c, s)) z == Sgn(Cross(c, a, s))
-                      IN (x >= 0 /\ y >= 0 /\ z >= 0) \/ (x <= 0 /\ y <= 0 /\ z <= 0)
-\* closed convex hull of four points (Caratheodory: union of the four triangles; a superset for collinear triples)
+InTriC(a, b, c, s) == IF Cross(a, b, c) = 0
+                      THEN \* degenerate triangle = the segment spanned by the three collinear points
+                           /\ Cross(a, b, s) = 0 /\ Cross(a, c, s) = 0 /\ Cross(b, c, s) = 0
+                           /\ MinI(a[1], MinI(b[1], c[1])) <= s[1] /\ s[1] <= MaxI(a[1], MaxI(b[1], c[1]))
+                           /\ MinI(a[2], MinI(b[2], c[2])) <= s[2] /\ s[2] <= MaxI(a[2], MaxI(b[2], c[2]))
+                      ELSE LET x == Sgn(Cross(a, b, s)) y == Sgn(Cross(b, c, s)) z == Sgn(Cross(c, a, s))
+                           IN (x >= 0 /\ y >= 0 /\ z >= 0) \/ (x <= 0 /\ y <= 0 /\ z <= 0)
+\* closed convex hull of four points (Caratheodory: union of the four triangles, degenerate ones included exactly)
 InHull4(q, s) == InTriC(q[1], q[2], q[3], s) \/ InTriC(q[1], q[2], q[4], s) \/ InTriC(q[1], q[3], q[4], s) \/ InTriC(q[2], q[3], q[4], s)
 CubDepth == 2
 CubScale == 64
